@@ -84,13 +84,13 @@ func TestDeadline(t *testing.T) {
 func TestDpipe(t *testing.T) {
 	for round := 0; round < 20; round++ {
 		a, b := dpipe.Pipe()
-		par(4, func(i int) {
+		par(7, func(i int) {
 			buf := make([]byte, 16)
 			for k := 0; k < 30; k++ {
 				switch i {
-				case 0:
-					_, _ = a.Write([]byte{byte(k)})
-				case 1:
+				case 0, 4, 5: // several writers on one end
+					_, _ = a.Write([]byte{byte(k), byte(i), 3, 4, 5, 6, 7, 8}[:1+k%8])
+				case 1, 6:
 					_ = b.SetReadDeadline(time.Now().Add(time.Millisecond))
 					_, _ = b.Read(buf)
 				case 2:
@@ -129,6 +129,17 @@ func TestVnet(t *testing.T) {
 		_ = wan.Start()
 		c1, _ := n1.ListenPacket("udp4", "1.2.3.4:1000")
 		c2, _ := n2.ListenPacket("udp4", "1.2.3.5:2000")
+		// ephemeral ports, resolver and interface queries while other networks are being built
+		for k := 0; k < 5; k++ {
+			if c, err := n1.ListenPacket("udp4", "1.2.3.4:0"); err == nil {
+				_ = c.Close()
+			}
+			if c, err := n2.ListenUDP("udp4", &net.UDPAddr{IP: net.IPv4zero, Port: 0}); err == nil {
+				_ = c.Close()
+			}
+			_, _ = n1.Interfaces()
+			_, _ = n1.ResolveUDPAddr("udp4", "1.2.3.5:2000")
+		}
 		par(5, func(j int) {
 			buf := make([]byte, 1500)
 			for k := 0; k < 60; k++ {
@@ -157,8 +168,12 @@ func TestVnet(t *testing.T) {
 }
 
 func TestUDPListener(t *testing.T) {
-	for round := 0; round < 5; round++ {
-		l, err := udp.Listen("udp", &net.UDPAddr{IP: net.IPv4(127, 0, 0, 1), Port: 0})
+	for round := 0; round < 6; round++ {
+		lc := udp.ListenConfig{}
+		if round%2 == 1 {
+			lc.Batch = udp.BatchIOConfig{Enable: true, ReadBatchSize: 4, WriteBatchSize: 2, WriteBatchInterval: 2 * time.Millisecond}
+		}
+		l, err := lc.Listen("udp", &net.UDPAddr{IP: net.IPv4(127, 0, 0, 1), Port: 0})
 		if err != nil {
 			t.Skip("no loopback socket:", err)
 		}
